@@ -21,7 +21,7 @@ EXPLANATION = (
     'the ValueSpecBase.apply pipeline (frozen, missing, None tests dominate; '
     '_validate on every path after _apply) and boundary operators of the '
     'range/size validators; (e) unknown keys are rejected before any store.')
-FLOORS = {'C03.a': 11, 'C03.b': 5, 'C03.c': 1, 'C03.d': 4, 'C03.e': 1, 'C03.f': 10, 'C03.g': 1, 'C03.h': 2, 'C03.i': 2}
+FLOORS = {'C03.a': 11, 'C03.b': 5, 'C03.c': 1, 'C03.d': 4, 'C03.e': 1, 'C03.f': 10, 'C03.g': 1, 'C03.h': 2, 'C03.i': 2, 'C03.j': 2}
 FILES = c08.FILES + ['pyglove/core/typing/value_specs.py',
                      'pyglove/core/typing/class_schema.py']
 
@@ -749,6 +749,39 @@ def rule_f(ctx):
     o.rule = 'C03.f'
 
 
+def rule_j(ctx):
+  """A container offered to a typed field adopts the field's spec in
+  custom_apply *before* the caller's standard apply has validated its content.
+  When that validation fails the caller gets the error - and the container keeps
+  a spec its content violates.  Necessary: the adoption is undone on failure
+  (store inside a try whose handler resets it) or does not happen in
+  custom_apply at all."""
+  idx = ctx.index
+  n = 0
+  for cls_fq in (S.LIST, S.DICT):
+    f = idx.lookup_method(cls_fq, 'custom_apply')
+    spec_param = [p for p in A.param_names(f.node) if 'spec' in p][:1]
+    stores = [st for st in A.walk_local(f.node) if isinstance(st, ast.Assign)
+              and A.unparse(st.targets[0]) == 'self._value_spec' and [A.unparse(st.value)] == spec_param]
+    n += 1
+    protected = []
+    for st in stores:
+      ok = False
+      for t in ast.walk(f.node):
+        if isinstance(t, ast.Try) and any(x is st for b in t.body for x in ast.walk(b)):
+          ok = any(isinstance(x, ast.Assign) and A.unparse(x.targets[0]) == 'self._value_spec'
+                   and A.unparse(x.value) == 'None' for h in t.handlers for x in ast.walk(h))
+      protected.append(ok)
+    ctx.ob('C03.j', f.fq + '#adopt-before-validate', all(protected),
+           'a container adopts a field\'s value spec only if its content passes it (the adoption is undone when the '
+           'standard apply that follows rejects the content)', f.loc,
+           f'line {stores[0].lineno if stores else 0}: `self._value_spec = {spec_param[0] if spec_param else "?"}` before the '
+           f'content is validated by the caller, with nothing to undo it: after a rejected assignment the container '
+           f'carries a schema its content violates')
+  if n < 2:
+    raise AnalysisError('custom_apply of List/Dict not found')
+
+
 def run(ctx):
   ctx.consult(*FILES)
   rule_f(ctx)
@@ -759,5 +792,6 @@ def run(ctx):
   rule_e(ctx)
   rule_g(ctx)
   rule_h(ctx)
+  rule_j(ctx)
   S.typecheck_flag_obligations(ctx, 'C03.i', ['pyglove/core/symbolic/list.py', 'pyglove/core/symbolic/dict.py'], floor=2)
   ctx.assume('acceptance semantics of each spec (what apply accepts) is not decided')
